@@ -279,19 +279,21 @@ def wrap_dh(f):
 
 
 def wrap_bt(f):
-    def g(statistics, nes, upd, top, trig, triggers):
+    """backtrack(): observed through the solver's own state (stack top, domains, flags, queue) - nothing is read from
+    the arguments of this internal routine."""
+    def g(*a, **kw):
         if C.probing or C.solver is None:
-            return f(statistics, nes, upd, top, trig, triggers)
+            return f(*a, **kw)
         _sync()
-        t0 = int(top[0])
+        t0 = _top()
         below = None
         if t0 > 0:
             below = (_box(t0 - 1), _en(t0 - 1))
-        ok = bool(f(statistics, nes, upd, top, trig, triggers))
-        e = {"k": "R", "d": _d(), "ok": ok, "top2": int(top[0]), "box": _box(), "en": _en(),
+        ok = bool(f(*a, **kw))
+        e = {"k": "R", "d": _d(), "ok": ok, "top2": _top(), "box": _box(), "en": _en(),
              "same": below is None or (below[0] == _box() and below[1] == _en()), "synth": False,
-             "q": [bool(x) for x in trig]}
-        C.tt = int(top[0])
+             "q": [bool(x) for x in C.solver.triggered_propagators]}
+        C.tt = _top()
         _emit(e)
         return ok
 
@@ -336,20 +338,29 @@ def wrap_solve_one(f):
 
 
 def wrap_pop(f):
-    def g(trig, prev):
-        r = int(f(trig, prev))
+    """Mechanism-level (strict, drift-only) events: emitted when the internal signature is the expected one, skipped
+    silently otherwise - a refactored signature must never turn into a verdict or a crash of the recorder."""
+    def g(*a, **kw):
+        r = f(*a, **kw)
         if C.strict and not C.probing and C.solver is not None:
-            _emit({"k": "q", "d": _d(), "r": r, "trig": [bool(x) for x in trig]})
+            try:
+                _emit({"k": "q", "d": _d(), "r": int(r), "trig": [bool(x) for x in a[0]]})
+            except Exception:  # noqa
+                pass
         return r
 
     return g
 
 
 def wrap_add(f):
-    def g(trig, ne_row, triggers, dom_idx, events):
-        f(trig, ne_row, triggers, dom_idx, events)
+    def g(*a, **kw):
+        r = f(*a, **kw)
         if C.strict and not C.probing and C.solver is not None:
-            _emit({"k": "a", "d": _d(), "dom": int(dom_idx), "events": int(events), "trig": [bool(x) for x in trig]})
+            try:
+                _emit({"k": "a", "d": _d(), "dom": int(a[3]), "events": int(a[4]), "trig": [bool(x) for x in a[0]]})
+            except Exception:  # noqa
+                pass
+        return r
 
     return g
 
